@@ -88,7 +88,12 @@ def run(rep, tier, seed, model_ok=True, effort=1):
               ("MAJOR.MINOR[.PATCH]", ["--minor"], "1.2", "default", ["1.2.0", "1.1"], ["1.1"], False),
               ("MAJOR.MINOR.PATCH", ["--patch"], "1.2.3", "branch", ["1.2.4", "1.2.3"], ["1.2.3"], False),
               ("MAJOR.MINOR.PATCH", ["--patch"], "1.2.3", "global", ["2.0.0", "1.2.3"], ["1.2.3"], False),
-              ("vMAJOR.MINOR.PATCH[-TAG]", ["--patch"], "v1.0.0-rc", "default", ["v1.0.0-beta", "v1.0.0", "v1.0.0-dev"], [], False)]
+              ("vMAJOR.MINOR.PATCH[-TAG]", ["--patch"], "v1.0.0-rc", "default", ["v1.0.0-beta", "v1.0.0", "v1.0.0-dev"], [], False),
+              # the config is legitimately ahead of the newest tag (e.g. after --no-tag-commit) across a 9 -> 10 digit boundary
+              ("MAJOR.MINOR.PATCH", ["--patch"], "1.10.0", "default", ["1.9.0", "1.8.0"], ["1.9.0"], False),
+              ("MAJOR.MINOR.PATCH", ["--patch"], "1.10.0", "global", ["1.9.0", "1.8.0"], ["1.8.0"], False),
+              ("MAJOR.MINOR.PATCH", ["--patch"], "1.5.0", "global", ["1.3.0", "1.2.0"], ["1.2.0"], False),
+              ("MAJOR.MINOR.PATCH", ["--patch"], "1.5.0", "branch", ["1.3.0", "1.2.0"], ["1.2.0"], False)]
     cases = list(corpus)
     while len(cases) < n:
         pat, flags = r.choice(PATTERNS)
@@ -153,6 +158,16 @@ def run(rep, tier, seed, model_ok=True, effort=1):
                     top = max(cmp_base, key=ref_key)
                     if not (ref_key(newl) > ref_key(top)):
                         rep.violation("the new version %r is not greater than the version in scope %r" % (newl, top), input=dict(inp, new=newl), **{"class": "new-not-greater"})
+            # --set-version to a version that already exists as a tag (on any branch) is refused, with or without --ignore-vcs-tag
+            higher = [t for t in tags_all if impl_valid(impl, t, pat) and ref_key(t) > ref_key(cfgv)]
+            if higher:
+                x = higher[0]
+                for extra in ([], ["--ignore-vcs-tag"]):
+                    c3, o3, l3, e3 = prj.run(impl, ["update", "--dry", "--no-fetch", "--set-version", x] + extra)
+                    rep.case(("set-version-existing-tag", pat, x, tuple(extra)))
+                    rep.count("set-version-existing-tag")
+                    if c3 == 0:
+                        rep.violation("--set-version %r accepted although that version already exists as a tag" % x, input=dict(inp, args=["--set-version", x] + extra), **{"class": "set-version-equals-tag"})
             rep.sample(dict(pattern=pat, config=cfgv, scope=scope, tags=tags_all[:6], current=cur))
     if model_ok:
         bad, errs = common.coq_eval("c09", HDR, "bool * list N * list N * scope * list (list N) * option (list N)",
